@@ -51,6 +51,10 @@ class FakeBackend:
         self.page_size = None
         self.timers_in_invocation = False
         self.fired_in_invocation = set()   # B3': operations whose timer fired while an invocation was running
+        self.invocation_no = 0
+        self.page_fetches = 0
+        self.page_fetch_failed = False
+        self.user_entries = {}             # harness bookkeeping: entries of user functions by name, over the whole execution
         self.hooks = None
 
     # ------------------------------------------------------------------ helpers
@@ -183,7 +187,7 @@ class FakeBackend:
             r.status = "STARTED"
         elif a == "SUCCEED":
             r.status = "SUCCEEDED"
-            r.result = u.payload
+            r.result = u.payload or None       # wire fidelity: OperationUpdate.to_dict() omits an empty Payload
             r.error = None
             if u.context_options is not None:
                 r.replay_children = bool(u.context_options.replay_children)
@@ -299,6 +303,13 @@ class FakeBackend:
         if str(next_marker).startswith("r:"):
             if self.hooks:
                 self.hooks("api.page", next_marker)
+            fpf = self.plan.get("fail_page_fetch")
+            if fpf is not None:
+                k_ = self.page_fetches
+                self.page_fetches += 1
+                if fpf["at"] <= k_ < fpf["at"] + fpf.get("times", 1):
+                    self.page_fetch_failed = True
+                    raise fpf["exc"]()
             pg, nxt = self._resp_pages[next_marker]
             return StateOutput(operations=pg, next_marker=nxt)
         idx = int(next_marker)
